@@ -50,7 +50,11 @@ def stats(raw):
     return d
 
 
+# seed, perturbation, incarnations, size, style, ?, ?, race_suspend=2: a helper submits low-priority tasks while main calls suspend()
+FINDING_RUNS = {'C05-suspend-lowprio': [[12, 0, 2, 6, -1, 0, -1, 2], [2, 0, 2, 6, -1, 0, -1, 2], [3, 0, 2, 6, -1, 0, -1, 2], [4, 0, 2, 6, -1, 0, -1, 2]]}
+
 e2check.run(dict(
+    finding_runs=FINDING_RUNS,
     prop='C05', model='life', harness='e2/life.cpp', bin='e2_life', props=['C05'], translators=[],
     runs=runs, extra_runs=extra_runs, nontrivial=nontrivial, stats=stats, par=3, timeout_s=900,
     rule='life-cycle histories `start cfg; (submit* | external_submit | wait | wait-from-a-task | suspend; submit*; resume)*; finalize; stop` repeated 1-5 times per process with PRNG-chosen thread counts (1-6) and scheduling policies (all 8), task trees with mixed priorities/stack sizes/yields, OS threads submitting concurrently with wait()/stop(), four shutdown styles (finalize then stop; stop entered before finalize with a helper submitting and then finalizing; finalize from a task; entry function returning a value), PRNG timing perturbation at the instrumented sites; non-trivial = the run contains a suspension, at least one restart and a staged task conversion; distinct = distinct argv',
